@@ -11,6 +11,7 @@ while [ "$s" -le "$last" ]; do
     out=$(./check "$p" --tier "$tier" --seed "$s" --budget "$budget" 2>&1); rc=$?
     echo "seed=$s $p rc=$rc $(echo "$out" | grep '^\[' | head -1)"
     if [ "$rc" -ne 0 ]; then echo "$out" | cut -c1-3000; fi
+    echo "$out" | grep -E '^(INCONCLUSIVE|HARNESS-ERROR)' | cut -c1-600
   done
   s=$((s + 1))
 done
